@@ -152,6 +152,8 @@ ROUTES = {
     "dill": (lambda m: dill.loads(dill.dumps(m)), True),
     "database": (db_rt, True),
     "database-x2": (lambda m: db_rt(db_rt(m)), True),
+    # repeated round trips across forms: what was loaded from the database is written to its dictionary form
+    "database-then-dict": (lambda m: dict_rt(db_rt(m)), False),
 }
 
 
@@ -179,7 +181,8 @@ def classify(comp, model, route, what):
         isinstance(m, af.Model) and m.prior_count == 0 and any(k not in m.constructor_argument_names for k, _ in X.public_items(m))
         for m in c03.reachable_models(model)
     )
-    if route.startswith("dict") and has_extra_on_fixed:
+    dict_leg = route.startswith("dict") or route.endswith("-dict")
+    if dict_leg and has_extra_on_fixed:
         return "C08-instance-extra-attr"
     from autofit.mapper.prior.tuple_prior import TuplePrior
 
@@ -187,11 +190,393 @@ def classify(comp, model, route, what):
         isinstance(m, af.Model) and m.prior_count == 0 and any(isinstance(v, TuplePrior) for _, v in X.public_items(m))
         for m in c03.reachable_models(model)
     )
-    if route.startswith("dict") and has_tuple_on_fixed and what in ("instance", "raises", "unusable"):
+    if dict_leg and has_tuple_on_fixed and what in ("instance", "raises", "unusable"):
         return "C08-instance-tuple"
     if route.startswith("database") and X.all_priors(comp) is not None and c01.features(comp)["kinds"] & {"array"}:
         return "C08-database-array"
     return f"C08-{route.split('-')[0]}-{what}"
+
+
+# ---------------------------------------------------------------------------------------------
+# the dictionary form itself (AFModel/DictJson.lean): writer vs `model.dict()`, reader on the REAL dictionary
+
+
+class Unsupported(Exception):
+    """a shape outside the modelled dictionary form (the clause is skipped, the oracle still runs)"""
+
+
+_PRIOR_TYPES = ("Uniform", "LogUniform", "Gaussian", "LogGaussian")
+_DICT_SKIP = ("component_number", "item_number", "id", "cls", "label")
+
+
+def _dict_items(o):
+    """the attributes `dict()` writes: `__dict__` order, private and bookkeeping names dropped"""
+    return [(k, v) for k, v in o.__dict__.items() if isinstance(k, str) and k not in _DICT_SKIP and not k.startswith("_")]
+
+
+def _lit(v):
+    if v is None or isinstance(v, bool):
+        return {"k": "lit", "v": v}
+    if isinstance(v, int):
+        return {"k": "lit", "v": {"i": v}}
+    if isinstance(v, float):
+        return {"k": "lit", "v": {"f": f2h(v)}}
+    if isinstance(v, str):
+        return {"k": "lit", "v": {"s": v}}
+    raise Unsupported(type(v).__name__)
+
+
+def pn_of(x):
+    """the rich wire composition (`PN`) of a model-side object, read from the object graph"""
+    import inspect
+    from autoconf.class_path import get_class_path
+    from autofit.mapper.prior.abstract import Prior
+    from autofit.mapper.prior.tuple_prior import TuplePrior
+    from autofit.mapper.prior_model.abstract import AbstractPriorModel
+    from autofit.mapper.prior_model.array import Array
+    from autofit.mapper.prior.arithmetic.compound import CompoundPrior, ModifiedPrior
+    from autofit.mapper.prior.arithmetic.assertion import CompoundAssertion
+    from autofit.mapper.model import ModelInstance
+
+    if x is None or isinstance(x, (bool, int, float, str)):
+        if isinstance(x, (np.floating, np.integer, np.bool_)):
+            raise Unsupported("numpy scalar")
+        return _lit(x)
+    if isinstance(x, Prior):
+        kind = X.KIND.get(type(x).__name__)
+        if kind is None:
+            raise Unsupported(type(x).__name__)
+        d = {"k": "prior", "id": int(x.id), "kind": kind, "lo": f2h(x.lower_limit), "hi": f2h(x.upper_limit)}
+        if kind in ("Gaussian", "LogGaussian"):
+            d["mean"], d["sigma"] = f2h(x.mean), f2h(x.sigma)
+        return d
+    if isinstance(x, CompoundAssertion):
+        return {"k": "both", "x": pn_of(x.assertion_1), "y": pn_of(x.assertion_2)}
+    if isinstance(x, CompoundPrior):
+        return {"k": "arith", "ct": type(x).__name__, "ln": x._left_name, "rn": x._right_name, "l": pn_of(x._left), "r": pn_of(x._right)}
+    if isinstance(x, ModifiedPrior):
+        return {"k": "modif", "mt": type(x).__name__, "name": x._prior_name, "x": pn_of(x.prior)}
+    asserts = list(getattr(x, "_assertions", None) or [])
+    if isinstance(x, af.Collection):
+        return {"k": "coll", "n": int(x.item_number), "attrs": [[k, pn_of(v)] for k, v in _dict_items(x)], "asserts": [pn_of(a) for a in asserts]}
+    if isinstance(x, AbstractPriorModel) and x.prior_count == 0:
+        if not isinstance(x, af.Model) or asserts:
+            raise Unsupported("parameter-free " + type(x).__name__)
+        return {"k": "inst", "cp": get_class_path(x.cls), "attrs": sorted([k, pn_of(v)] for k, v in _dict_items(x))}
+    if isinstance(x, af.Model):
+        return {"k": "model", "cp": get_class_path(x.cls), "attrs": [[k, pn_of(v)] for k, v in _dict_items(x)], "asserts": [pn_of(a) for a in asserts]}
+    if isinstance(x, TuplePrior):
+        return {"k": "tuple", "attrs": [[k, pn_of(v)] for k, v in _dict_items(x)]}
+    if isinstance(x, Array):
+        items = _dict_items(x)
+        if asserts or [k for k, _ in items[:2]] != ["shape", "indices"] or any(not k.startswith("prior") for k, _ in items[2:]):
+            raise Unsupported("array with other attributes")
+        return {"k": "array", "shape": [int(n) for n in x.shape], "attrs": [[k, pn_of(v)] for k, v in items[2:]]}
+    if isinstance(x, (list, tuple)):
+        return {"k": "list", "tuple": isinstance(x, tuple), "items": [pn_of(v) for v in x]}
+    if isinstance(x, (dict, ModelInstance, np.ndarray, type)) or not hasattr(x, "__dict__"):
+        raise Unsupported(type(x).__name__)
+    # an instance of a user class: its constructor arguments (autoconf `instance_as_dict`)
+    spec = inspect.getfullargspec(type(x).__init__)
+    if spec.varkw or hasattr(x, "__identifier_fields__") or hasattr(x, "__exclude_fields__") or hasattr(x, "__nullify_fields__"):
+        raise Unsupported("instance with special fields")
+    return {"k": "inst", "cp": get_class_path(type(x)), "attrs": sorted([a, pn_of(getattr(x, a))] for a in spec.args[1:] if hasattr(x, a))}
+
+
+def jv_of(d):
+    """canonical wire form of a real dictionary. The entries of an `arguments` dictionary keep their order (it is
+    the order in which the reader meets the parameters); the fields of a typed dictionary (`type`, `class_path`,
+    `assertions`, `arguments`, limits ...) are read by key: sorted. An `instance` dictionary is built by keyword
+    from a set of argument names: its arguments are sorted too."""
+    if d is None or isinstance(d, bool):
+        return d
+    if isinstance(d, (np.floating, np.integer, np.bool_)):
+        raise Unsupported("numpy scalar")
+    if isinstance(d, int):
+        return {"i": d}
+    if isinstance(d, float):
+        return {"f": f2h(d)}
+    if isinstance(d, str):
+        return {"s": d}
+    if isinstance(d, (list, tuple)):
+        return [jv_of(v) for v in d]
+    if isinstance(d, dict):
+        return canon_fields({"o": [[str(k), jv_of(v)] for k, v in d.items()]})
+    raise Unsupported(type(d).__name__)
+
+
+def canon_fields(j):
+    """field order of one typed dictionary in wire form (see `jv_of`)"""
+    fields = j["o"]
+    keys = [k for k, _ in fields]
+    if "type" in keys and isinstance(dict(fields)["type"], dict) and "s" in dict(fields)["type"]:
+        if dict(fields)["type"] == {"s": "instance"}:
+            fields = [[k, ({"o": sorted(v["o"])} if k == "arguments" and isinstance(v, dict) and "o" in v else v)] for k, v in fields]
+        fields = sorted(fields, key=lambda kv: kv[0])
+    return {"o": fields}
+
+
+def canon_answer(j):
+    """the same canonical field order for a dictionary answered by the model"""
+    if isinstance(j, list):
+        return [canon_answer(v) for v in j]
+    if isinstance(j, dict) and "o" in j:
+        return canon_fields({"o": [[k, canon_answer(v)] for k, v in j["o"]]})
+    return j
+
+
+def _prior_ids(d, out):
+    if isinstance(d, dict):
+        if d.get("type") in _PRIOR_TYPES and "id" in d:
+            out.add(d["id"])
+        for v in d.values():
+            _prior_ids(v, out)
+    elif isinstance(d, list):
+        for v in d:
+            _prior_ids(v, out)
+    return out
+
+
+def rankify(d, ranks=None):
+    """the dictionary with every prior id replaced by its rank among the ids it mentions"""
+    if ranks is None:
+        ranks = {i: k for k, i in enumerate(sorted(_prior_ids(d, set())))}
+    if isinstance(d, dict):
+        if d.get("type") in _PRIOR_TYPES and "id" in d:
+            return {k: (ranks[v] if k == "id" else v) for k, v in d.items()}
+        return {k: rankify(v, ranks) for k, v in d.items()}
+    if isinstance(d, list):
+        return [rankify(v, ranks) for v in d]
+    return d
+
+
+def first_diff(a, b, path=""):
+    if type(a) is not type(b):
+        return (path, a if not isinstance(a, (dict, list)) else type(a).__name__, b if not isinstance(b, (dict, list)) else type(b).__name__)
+    if isinstance(a, dict):
+        if list(a) != list(b):
+            return (path, list(a), list(b))
+        for k in a:
+            d = first_diff(a[k], b[k], path + "/" + str(k))
+            if d:
+                return d
+        return None
+    if isinstance(a, list):
+        if len(a) != len(b):
+            keys = lambda l: [x[0] if isinstance(x, list) and x and isinstance(x[0], str) else "." for x in l]
+            return (path, keys(a), keys(b))
+        for j, (x, y) in enumerate(zip(a, b)):
+            tag = x[0] if isinstance(x, list) and x and isinstance(x[0], str) else str(j)
+            d = first_diff(x, y, path + "/" + tag)
+            if d:
+                return d
+        return None
+    return None if a == b else (path, a, b)
+
+
+_defaults = None
+
+
+def class_defaults():
+    """scalar defaults of the constructor arguments of the user classes, by class path (what `cls(**arguments)`
+    supplies for an argument the dictionary does not give)"""
+    global _defaults
+    if _defaults is None:
+        import inspect
+        import vlib
+        from autoconf.class_path import get_class_path
+
+        _defaults = []
+        for cls in vlib.CLASSES.values():
+            args = []
+            for name, prm in inspect.signature(cls.__init__).parameters.items():
+                d = prm.default
+                if name != "self" and d is not inspect.Parameter.empty and (d is None or isinstance(d, (bool, int, float, str))):
+                    args.append([name, _lit(d)["v"]])
+            _defaults.append([get_class_path(cls), args])
+    return _defaults
+
+
+def report_of(r):
+    ids = sorted({p.id for p in r.priors})
+    rank = {i: k for k, i in enumerate(ids)}
+    pp = r.path_priors_tuples
+    return {"paths": [list(map(str, p)) for p, _ in pp], "path_ranks": [rank[pr.id] for _, pr in pp],
+            "count": r.prior_count, "redict": jv_of(rankify(r.dict()))}
+
+
+def dictform_clauses(ctx, model, case):
+    """(1) Lean `render (toDV t)` of the extracted composition == the real `model.dict()`;
+    (2) Lean `fromDV` run on the REAL dictionary == the real reloaded model: advertised paths in parameter order,
+        identity of the prior at every place (ranks), count, and the reloaded model's own dictionary;
+    (3) the model's own round trip(s) `dictRTn` of the extracted composition == the same real reload(s)."""
+    try:
+        pn = pn_of(model)
+        real = model.dict()
+        real_jv = jv_of(real)
+        text = json.dumps(real)
+    except Unsupported as e:
+        ctx.hit("dictform-unsupported:" + str(e)[:40])
+        return
+    times = 2 if ctx.rng.random() < 0.3 else 1
+    c = dict(case, route="dict-form")
+    ans = ctx.lean.ask({"p": "C08", "q": "todict", "pn": pn, "times": times, "defaults": class_defaults()})
+    if "driver_error" in ans:
+        ctx.disagree("driver", c, None, ans)
+        return
+    ctx.hit("dictform:todict")
+    if canon_answer(ans["dict"]) != real_jv:
+        ctx.disagree("C08.dictform.writer", c, first_diff(real_jv, canon_answer(ans["dict"])), "model.dict() differs from the modelled dictionary")
+    pickle_clause(ctx, model, pn, c)
+    try:
+        r = af.AbstractPriorModel.from_dict(json.loads(text))
+        rep = report_of(r)
+        rn, repn = r, rep
+        for _ in range(times - 1):
+            rn = af.AbstractPriorModel.from_dict(json.loads(json.dumps(rn.dict())))
+            repn = report_of(rn)
+    except Unsupported as e:
+        ctx.hit("dictform-unsupported-reload:" + str(e)[:40])
+        return
+    except Exception as e:
+        ctx.hit("dictform-reload-raised:" + type(e).__name__)  # reported by the oracle of the dict route
+        return
+    ans2 = ctx.lean.ask({"p": "C08", "q": "fromdict", "dict": jv_of(json.loads(text)), "defaults": class_defaults()})
+    if "driver_error" in ans2:
+        ctx.disagree("driver", c, None, ans2)
+        return
+    ctx.hit("dictform:fromdict")
+    for who, got, want in (("reader", ans2, rep), ("roundtrip", ans["reload"], repn)):
+        for k in ("paths", "path_ranks", "count"):
+            if got[k] != want[k]:
+                ctx.disagree(f"C08.dictform.{who}.{k}", c, want[k][:8] if isinstance(want[k], list) else want[k],
+                             got[k][:8] if isinstance(got[k], list) else got[k])
+                break
+        else:
+            if canon_answer(got["redict"]) != want["redict"]:
+                ctx.disagree(f"C08.dictform.{who}.redict", c, first_diff(want["redict"], canon_answer(got["redict"])), "dictionary of the reloaded model differs")
+    assertion_clause(ctx, r, text, c)
+
+
+def all_prior_objects(o, out=None, seen=None, depth=0):
+    """every Prior object reachable from `o` (private attributes and assertions included), by id"""
+    from autofit.mapper.prior.abstract import Prior
+
+    out = {} if out is None else out
+    seen = set() if seen is None else seen
+    if id(o) in seen or depth > 12:
+        return out
+    seen.add(id(o))
+    if isinstance(o, Prior):
+        out.setdefault(o.id, o)
+        return out
+    if isinstance(o, (list, tuple)):
+        for v in o:
+            all_prior_objects(v, out, seen, depth + 1)
+    elif isinstance(o, dict):
+        for v in o.values():
+            all_prior_objects(v, out, seen, depth + 1)
+    elif hasattr(o, "__dict__") and not isinstance(o, type):
+        for k, v in vars(o).items():
+            if k != "_frozen_cache":
+                all_prior_objects(v, out, seen, depth + 1)
+    return out
+
+
+def real_verdicts(r, arguments):
+    """the verdict of every assertion of the real model: a component's own assertions, then its attributes'"""
+    out = []
+
+    def visit(m):
+        for a in list(getattr(m, "_assertions", None) or []):
+            try:
+                out.append(bool(a.instance_for_arguments(arguments)))
+            except Exception as e:
+                out.append("err:" + type(e).__name__)
+        for _, v in _dict_items(m):
+            if isinstance(v, (af.Collection, af.Model)):
+                visit(v)
+
+    visit(r)
+    return out
+
+
+def assertion_clause(ctx, r, text, c):
+    """Lean: `fromDV` on the REAL dictionary, then `assertVerdicts` for values given per identity; real: the
+    reloaded model's own assertion objects evaluated on the same values"""
+    priors = all_prior_objects(r)
+    ids = sorted(_prior_ids(r.dict(), set()))
+    if not ids or any(i not in priors for i in ids):
+        ctx.hit("dictform-asserts-skipped")
+        return
+    for _ in range(2):
+        vals = []
+        for i in ids:
+            lo, hi = max(float(priors[i].lower_limit), -50.0), min(float(priors[i].upper_limit), 50.0)
+            if lo > hi:
+                lo, hi = hi, lo
+            vals.append(ctx.rng.uniform(lo, hi))
+        want = real_verdicts(r, {priors[i]: v for i, v in zip(ids, vals)})
+        if not want:
+            return
+        ans = ctx.lean.ask({"p": "C08", "q": "asserts", "dict": jv_of(json.loads(text)), "vals": [f2h(v) for v in vals],
+                            "defaults": class_defaults()})
+        if "driver_error" in ans:
+            ctx.disagree("driver", c, None, ans)
+            return
+        ctx.hit("dictform:asserts")
+        got = ans["verdicts"]
+        if len(got) != len(want) or any(w != g for w, g in zip(want, got) if not isinstance(w, str)):
+            ctx.disagree("C08.dictform.assert-verdicts", c, want, got)
+            return
+
+
+def pickle_clause(ctx, model, pn, c):
+    """the stated assumption about pickle (same attribute tree, ids verbatim) checked on the real object, and what
+    the model derives from it (paths in parameter order, ids, dictionary) compared with the real reloaded model"""
+    try:
+        rp = pickle.loads(pickle.dumps(model))
+        pn2 = pn_of(rp)
+        real = jv_of(rp.dict())
+    except Unsupported:
+        return
+    if pn2 != pn:
+        ctx.disagree("C08.pickle.assumption", c, first_diff(pn, pn2), "pickle did not restore the same attribute tree with the same ids")
+    ans = ctx.lean.ask({"p": "C08", "q": "pickle", "pn": pn})
+    if "driver_error" in ans:
+        ctx.disagree("driver", c, None, ans)
+        return
+    ctx.hit("dictform:pickle")
+    pp = rp.path_priors_tuples
+    if ans["paths"] != [list(map(str, p)) for p, _ in pp] or ans["ids"] != [int(pr.id) for _, pr in pp]:
+        ctx.disagree("C08.pickle.order", c, [list(map(str, p)) for p, _ in pp][:8], ans["paths"][:8])
+    elif canon_answer(ans["dict"]) != real:
+        ctx.disagree("C08.pickle.dict", c, first_diff(real, canon_answer(ans["dict"])), "dictionary of the unpickled model differs")
+
+
+def dbcounter_clause(ctx, r, c):
+    """the counter of appended items of every collection rebuilt from database rows vs Lean `nextPosition` of its
+    member names (the rows do not store it)"""
+    seen = 0
+
+    def visit(m):
+        nonlocal seen
+        if isinstance(m, af.Collection) and seen < 2:
+            seen += 1
+            names = [k for k, _ in _dict_items(m)]
+            ans = ctx.lean.ask({"p": "C08", "q": "dbcounter", "names": names})
+            if "driver_error" in ans:
+                ctx.disagree("driver", c, None, ans)
+                return
+            ctx.hit("dictform:dbcounter")
+            got = getattr(m, "item_number", "missing")
+            if got != ans["item_number"] or isinstance(got, bool) or not isinstance(got, int):
+                ctx.disagree("C08.database.item_number", c, got, ans["item_number"])
+        for _, v in _dict_items(m):
+            if isinstance(v, (af.Collection, af.Model)):
+                visit(v)
+
+    visit(r)
 
 
 def one_case(ctx, prog, label="gen"):
@@ -222,9 +607,13 @@ def one_case(ctx, prog, label="gen"):
     has_asserts = any(s["op"] == "assert" for s in prog)
     nontrivial = n_ids >= 2 and (feats["places"] > n_ids or bool(feats["kinds"] & {"tuple", "arith", "modif", "array"}) or has_asserts)
     case = {"program": prog, "label": label}
+    if model.prior_count > 0 and not holds_model_instance(model) and (ctx.tier == "quick" or label != "gen" or rng.random() < 0.45):
+        dictform_clauses(ctx, model, case)
     for route, (fn, keeps_order) in ROUTES.items():
         if route.startswith("dict") and model.prior_count == 0:
             continue  # a model without free parameters is written as a plain instance
+        if route == "database-then-dict" and (model.prior_count == 0 or (label == "gen" and rng.random() < (0.5 if ctx.tier == "quick" else 0.7))):
+            continue
         if ctx.tier == "quick" and route in ("dict-x3", "database-x2", "dill") and rng.random() < 0.6:
             continue
         ctx.case({"comp": comp, "route": route}, nontrivial=nontrivial,
@@ -234,13 +623,17 @@ def one_case(ctx, prog, label="gen"):
         try:
             r = fn(model)
         except Exception as e:
-            ctx.fail(classify(comp, model, route, "raises"), f"{route} round trip raised {type(e).__name__}", c, str(e)[:200])
+            lost_counter = isinstance(e, AttributeError) and "item_number" in str(e)
+            ctx.fail("C08-db-collection-item-number" if lost_counter else classify(comp, model, route, "raises"),
+                     f"{route} round trip raised {type(e).__name__}", c, str(e)[:200])
             continue
         try:
             new_shape = shape_of(r)
         except Exception as e:
             ctx.fail(classify(comp, model, route, "unusable"), f"model reloaded through {route} cannot be queried", c, f"{type(e).__name__}: {e}"[:200])
             continue
+        if route == "database":
+            dbcounter_clause(ctx, r, c)
         if new_shape["id_consts"] != base_shape["id_consts"]:
             ctx.fail("C08-database-id-const" if route.startswith("database") else f"C08-{route}-id-const",
                      f"{route} round trip turns the id of a component into a float attribute (listed among the fixed values)", c, new_shape["id_consts"][:3])
